@@ -451,6 +451,7 @@ func randomData(r *Rand, tag string) DataSpec {
 }
 
 func randomEngine(r *Rand, base EngineSpec) EngineSpec {
+	base.Proc = r.Chance(30)
 	base.ReadFileFS = r.Chance(70)
 	base.StatFS = r.Chance(70)
 	base.ReadDirFS = r.Chance(50)
